@@ -248,56 +248,122 @@ def accessors(chk, drv):
 
 def accessors_swapper(chk):
     """Grid accessors on grids that share a LayoutSwapper (the driver's phi / rho set-up): a grid created in a layout that is not on
-    the swapper's start handler, and the same grid after ANOTHER grid has moved the swapper's current manager elsewhere.  Oracle:
-    the block the grid's own current layout advertises."""
+    the swapper's start handler, the same grid after ANOTHER grid has moved the swapper's current manager elsewhere, and after its OWN
+    layout changes (setLayout between layouts of the same order on different handlers, save / move / restore).  Oracle: the block the
+    grid's own current layout advertises, the global field for the data, and the process grid of the group the layout belongs to."""
     from pygyro.model.layout import LayoutSwapper
     from pygyro.model.grid import Grid
     from props import c03
     rng = chk.rng
     names = ['v_parallel_2d', 'mode_solve', 'v_parallel_1d', 'poloidal']
-    for it in range(chk.n(10, 80)):
+    group_of = {n: gi for gi, g in enumerate(c03.DRIVER_GROUPS) for n in g}
+    for it in range(chk.n(14, 120)):
         p0, p1 = rng.choice([(2, 3), (3, 2), (2, 2), (1, 3), (3, 1), (2, 1)])
         ext = [rng.randint(max(p0, p1), 7) for _ in range(3)]
         eta = lu.eta_grids(ext)
         start = rng.choice(names)
         mine = rng.choice(names)
-        moves = [rng.choice(names) for _ in range(rng.randint(1, 3))]
+        # steps: ('other', layout) moves the other grid; ('own', layout) moves g; ('save',) / ('restore',) on g
+        steps = []
+        saved = False
+        for _ in range(rng.randint(1, 5)):
+            r = rng.random()
+            if r < 0.4:
+                steps.append(('other', rng.choice(names)))
+            elif r < 0.8:
+                steps.append(('own', rng.choice(names)))
+            elif not saved:
+                steps.append(('save',))
+                saved = True
+            else:
+                steps.append(('restore',))
+                saved = False
+        G = lu.global_array(ext, 'complex128')
+        nprocs_of = [[p0, p1], [p0], [p1]]
 
         def body():
             comm = MPI.COMM_WORLD
             sw = LayoutSwapper(comm, c03.DRIVER_GROUPS, [[p0, p1], p0, p1], eta, start)
-            g = Grid(eta, [None] * 3, sw, mine, comm, dtype=np.complex128)
+            g = Grid(eta, [None] * 3, sw, mine, comm, dtype=np.complex128, allocateSaveMemory=True)
             other = Grid(eta, [None] * 3, sw, start, comm, dtype=np.complex128)
+            g._f[:] = lu.expected_block(G, g.getLayout(mine))
             snaps = []
-            for step in [None] + moves:
+            for step in [None] + steps:
+                own = False
                 if step is not None:
-                    other.setLayout(step)                  # moves the swapper's current manager; `g` is not touched
+                    if step[0] == 'other':
+                        other.setLayout(step[1])           # moves the swapper's current manager; `g` is not touched
+                    elif step[0] == 'own':
+                        own = g.currentLayout != step[1]
+                        g.setLayout(step[1])
+                    elif step[0] == 'save':
+                        g.saveGridValues()
+                    else:
+                        g.restoreGridValues()
                 L = g.getLayout(g.currentLayout)
-                snaps.append({'starts': tolist(L.starts), 'ends': tolist(L.ends), 'order': tolist(L.dims_order),
-                              'idxvals': [tolist(g.getGlobalIdxVals(i)) for i in range(3)],
-                              'coordvals': [[float(x) for x in g.getCoordVals(i)] for i in range(3)],
-                              'global0': tolist(g.getGlobalIndices(0, 0, 0)) if min(L.shape) > 0 else None})
+                snap = {'layout': g.currentLayout, 'starts': tolist(L.starts), 'ends': tolist(L.ends), 'order': tolist(L.dims_order),
+                        'idxvals': [tolist(g.getGlobalIdxVals(i)) for i in range(3)],
+                        'coordvals': [[float(x) for x in g.getCoordVals(i)] for i in range(3)],
+                        'coords': [[(int(a), float(b)) for a, b in g.getCoords(i)] for i in range(3)],
+                        'eta': [[(int(a), float(b)) for a, b in g.getEta(i)] for i in range(3)],
+                        'global0': tolist(g.getGlobalIndices(0, 0, 0)) if min(L.shape) > 0 else None,
+                        'shape_ok': tuple(g._f.shape) == tuple(L.shape),
+                        'data_ok': tuple(g._f.shape) == tuple(L.shape) and bool(np.array_equal(g._f, lu.expected_block(G, L)))}
+                if own:
+                    # right after this grid's own move the swapper describes the process grid of the destination's group
+                    co = [int(c) for c in sw.mpiCoords]
+                    ms = [[int(x) for x in L.mpi_starts(k)] for k in range(len(co))] if len(co) <= 3 else None
+                    snap['procgrid'] = {'nProcs': [int(x) for x in np.atleast_1d(sw.nProcs)], 'ndist': int(sw.nDistributedDirections),
+                                        'coords': co, 'mpi_starts': ms}
+                snaps.append(snap)
             return snaps
         res = lu.run_ranks(p0 * p1, body, policy='random', seed=it)
-        case = {'nprocs': [p0, p1], 'ext': ext, 'start': start, 'grid_layout': mine, 'other_grid_moves': moves}
+        case = {'nprocs': [p0, p1], 'ext': ext, 'start': start, 'grid_layout': mine, 'steps': [list(s) for s in steps]}
         if not res.ok:
             chk.fail('C02:accessor-crash', 'accessors of a grid on a shared LayoutSwapper raised: ' + str(res.first_error())[:200], case)
             continue
         for rk, snaps in enumerate(res.values()):
+            bad = False
             for k, o in enumerate(snaps):
                 exp_idx = [list(range(a, b)) for a, b in zip(o['starts'], o['ends'])]
                 exp_val = [[float(eta[o['order'][i]][gi]) for gi in exp_idx[i]] for i in range(3)]
+                exp_coords = [list(enumerate(v)) for v in exp_val]
+                inv = [o['order'].index(i) for i in range(3)]
+                exp_eta = [list(enumerate(exp_val[inv[i]])) for i in range(3)]
                 exp_g0 = None
                 if o['global0'] is not None:
                     exp_g0 = [None] * 3
                     for i in range(3):
                         exp_g0[o['order'][i]] = o['starts'][i]
-                if o['idxvals'] != exp_idx or o['coordvals'] != exp_val or o['global0'] != exp_g0:
-                    chk.fail('C02:accessors-shared-swapper', 'accessors of a grid on a shared LayoutSwapper disagree with the block its current layout '
-                             'advertises (after %d layout changes of the OTHER grid)' % k, dict(case, rank=rk, after_moves=k),
+                if (o['idxvals'] != exp_idx or o['coordvals'] != exp_val or o['global0'] != exp_g0
+                        or [[tuple(x) for x in c] for c in o['coords']] != exp_coords
+                        or [[tuple(x) for x in c] for c in o['eta']] != exp_eta):
+                    chk.fail('C02:accessors-shared-swapper', 'accessors of a grid on a shared LayoutSwapper disagree with the block its current '
+                             'layout advertises (after %d steps)' % k, dict(case, rank=rk, after_steps=k),
                              {'idxvals': exp_idx, 'global0': exp_g0}, {'idxvals': o['idxvals'], 'global0': o['global0']})
+                    bad = True
+                elif not o['data_ok']:
+                    chk.fail('C02:grid-data-shared-swapper', 'the data block of a grid on a shared LayoutSwapper is not the block of the global '
+                             'field that its current layout advertises (after %d steps; shape matches: %s)' % (k, o['shape_ok']),
+                             dict(case, rank=rk, after_steps=k, layout=o['layout']))
+                    bad = True
+                elif 'procgrid' in o:
+                    pg = o['procgrid']
+                    exp_np = nprocs_of[group_of[o['layout']]]
+                    # the process coordinates must select this rank's own block in each distributed dimension
+                    own_block = pg['mpi_starts'] is not None and len(pg['coords']) == len(exp_np) and all(
+                        0 <= pg['coords'][d] < len(pg['mpi_starts'][d]) and pg['mpi_starts'][d][pg['coords'][d]] == o['starts'][d]
+                        for d in range(len(exp_np)))
+                    if pg['nProcs'] != exp_np or pg['ndist'] != len(exp_np) - exp_np.count(1) or not own_block:
+                        chk.fail('C02:swapper-procgrid', 'after a grid moved to layout %r the swapper does not describe the process grid of that '
+                                 'layout (nProcs / nDistributedDirections / mpiCoords)' % o['layout'], dict(case, rank=rk, after_steps=k),
+                                 {'nProcs': exp_np, 'ndist': len(exp_np) - exp_np.count(1)}, pg)
+                        bad = True
+                if bad:
                     break
-        chk.case(('accsw', p0, p1, tuple(ext), start, mine, tuple(moves)), nontrivial=p0 * p1 > 1)
+            if bad:
+                break
+        chk.case(('accsw', p0, p1, tuple(ext), start, mine, tuple(steps)), nontrivial=p0 * p1 > 1)
         chk.count('accessor checks on grids sharing a swapper')
 
 
